@@ -91,6 +91,18 @@ func runC53(c *Ctx) {
 		{"nacl/sign", "Sign", "AnyOverlap", "message"},
 		{"nacl/sign", "Open", "AnyOverlap", "signedMessage"},
 	}
+	if c.cfg != "" {
+		// other build configurations: seal/open are thin wrappers around the
+		// generic routines (chacha20poly1305_noasm.go) and carry no guard of their own
+		var keep []guardSite
+		for _, s := range sites {
+			if s.pkg == "chacha20poly1305" && (s.fn == "(*chacha20poly1305).seal" || s.fn == "(*chacha20poly1305).open") {
+				continue
+			}
+			keep = append(keep, s)
+		}
+		sites = keep
+	}
 	// all guard call sites in the module (to notice sites added or removed)
 	found := 0
 	for _, p := range c.ld.pkgs {
